@@ -191,6 +191,20 @@ func c16Eval(c c16Case) (ok bool, sig, detail string) {
 			}
 		}
 		return true, "", ""
+	case "trailing":
+		// blanks before every line end, as written by some vector editors (the corpus file pBAT5.txt has them):
+		// both line-end styles must read the record with the right residues
+		blk := strings.ReplaceAll(ref, "\n", strings.Repeat(" ", 1+c.Off)+"\n")
+		for name, crlf := range map[string]bool{"LF": false, "CRLF": true} {
+			so := scanAll(c16Record(c.N, blk, crlf))
+			if so.panicked != "" {
+				return false, "scan-panic", fmt.Sprintf("n=%d %s trailing blanks: scanner panics: %s", c.N, name, so.panicked)
+			}
+			if so.err || so.records != 1 || so.residues[0] != string(p) || so.lens[0] != c.N {
+				return false, "trailing-blanks-" + strings.ToLower(name), fmt.Sprintf("n=%d %s: ORIGIN lines with %d trailing blank(s): %d records, err=%q, %d residues", c.N, name, 1+c.Off, so.records, so.errText, len(strings.Join(so.residues, "")))
+			}
+		}
+		return true, "", ""
 	case "mutate":
 		mut := []byte(ref)
 		if c.Off >= len(mut) {
@@ -235,6 +249,10 @@ func c16Eval(c c16Case) (ok bool, sig, detail string) {
 		if pn {
 			return false, "slow-panic", fmt.Sprintf("n=%d block[%d]=%q: slow ORIGIN path panics: %s", c.N, c.Off, byte(c.Byte), msg)
 		}
+		if ferr != nil && serr == nil && c.Kind == "mutate" && c.Off == len(ref)-1 && (c.Byte == ' ' || c.Byte == '\t') && string(sout) == ref {
+			// only difference to the canonical block: a blank instead of the final newline
+			return false, "fast-slow-trailing-blank", fmt.Sprintf("n=%d: last line ends in a blank: fast path err=%v, slow path accepts (residues intact)", c.N, ferr)
+		}
 		if (ferr == nil) != (serr == nil) {
 			return false, "fast-slow-verdict", fmt.Sprintf("n=%d block[%d]=%q: fast path err=%v, slow path err=%v", c.N, c.Off, byte(c.Byte), ferr, serr)
 		}
@@ -275,6 +293,10 @@ func init() {
 				}
 				if c16HaveInternals {
 					eval(c16Case{Kind: "internal", N: n}, n)
+				}
+				if n >= 1 && n <= 400 {
+					eval(c16Case{Kind: "trailing", N: n, Off: 0}, n)
+					eval(c16Case{Kind: "trailing", N: n, Off: 2}, n)
 				}
 				if n%97 == 0 && r.WantSample() {
 					r.Sample(c16Case{Kind: "layout", N: n})
